@@ -120,3 +120,131 @@ Theorem rnode_capture x body s k :
   end.
 Proof. reflexivity. Qed.
 End ForNode.
+
+(* ---------------- C06: conditionals ---------------- *)
+Theorem truthiness v : (forall st, v <> VState st) ->
+  (truthy v = false <-> v = VNil \/ v = VScalar (SBool false)).
+Proof.
+  intro Hs. unfold truthy. destruct v as [s|l|l|st|]; simpl.
+  - destruct s as [z|f|b|t|d|x]; simpl; try (split; [discriminate|intros [H|H]; discriminate]).
+    destruct b; split; try discriminate; auto. intros [H|H]; discriminate.
+  - split; [discriminate|intros [H|H]; discriminate].
+  - split; [discriminate|intros [H|H]; discriminate].
+  - exfalso. apply (Hs st). reflexivity.
+  - split; auto.
+Qed.
+(* 0, the empty string and the empty array are true *)
+Example zero_empty_are_true :
+  truthy (VScalar (SInt 0)) = true /\ truthy (VScalar (SStr [])) = true /\ truthy (VArray []) = true /\ truthy (VObject []) = true.
+Proof. repeat split; reflexivity. Qed.
+
+Section Cond.
+Variable O : oracle. Variable ps : pstore. Variable rec : template -> est -> sink -> out.
+(* a bare value is tested without failing: an undefined name counts as nil *)
+Theorem bare_test e s : eval_cond O (CExists e) s =
+  Ok (truthy (match try_eval_expr O e s with Some v => v | None => VNil end)).
+Proof. reflexivity. Qed.
+Theorem undefined_is_false e s : try_eval_expr O e s = None -> eval_cond O (CExists e) s = Ok false.
+Proof. intro H. simpl. rewrite H. reflexivity. Qed.
+(* the operators are the value model's equality and ordering *)
+Theorem ops_are_value_model a b :
+  eval_cmp O OpEq a b = Ok (value_eq a b) /\ eval_cmp O OpNe a b = Ok (negb (value_eq a b)) /\
+  eval_cmp O OpLt a b = Ok (v_lt a b) /\ eval_cmp O OpGt a b = Ok (v_gt a b) /\
+  eval_cmp O OpLe a b = Ok (v_le a b) /\ eval_cmp O OpGe a b = Ok (v_ge a b).
+Proof. repeat split; reflexivity. Qed.
+Theorem contains_spec a b :
+  eval_cmp O OpContains a b =
+  match a with
+  | VScalar _ => Ok (str_contains (to_kstr O a) (to_kstr O b))
+  | VObject kvs => Ok (match b with VScalar _ => has_key (to_kstr O b) kvs | _ => false end)
+  | VArray l => Ok (existsb (fun e => value_eq e b) l)
+  | _ => Err EOther
+  end.
+Proof. reflexivity. Qed.
+(* and / or with the grouping x or (y and z) *)
+Theorem and_or_semantics a b c s x y z :
+  eval_cond O a s = Ok x -> eval_cond O b s = Ok y -> eval_cond O c s = Ok z ->
+  eval_cond O (COr a (CAnd b c)) s = Ok (x || (y && z)) /\
+  eval_cond O (CAnd a b) s = Ok (x && y) /\ eval_cond O (COr a b) s = Ok (x || y).
+Proof.
+  intros Ha Hb Hc. simpl. rewrite Ha, Hb, Hc. simpl. destruct x, y, z; repeat split; reflexivity.
+Qed.
+
+Lemma rlist_single n s k : rlist O ps rec [n] s k = rnode O ps rec n s k.
+Proof.
+  simpl. unfold seq_step. destruct (rnode O ps rec n s k) as [[o s'] k']. destruct o; try reflexivity.
+  destruct (interrupted s'); reflexivity.
+Qed.
+(* if / elsif / else as the parser builds it: each elsif is an `if` alone in the else branch *)
+Fixpoint mk_if (arms : list (cond * list node)) (els : option (list node)) : option (list node) :=
+  match arms with
+  | [] => els
+  | (c, b) :: rest => Some [NIf true c b (mk_if rest els)]
+  end.
+(* exactly one branch: the first whose condition holds, otherwise else, otherwise nothing *)
+Theorem if_first_true : forall arms els s k,
+  Forall (fun cb => exists v, eval_cond O (fst cb) s = Ok v) arms ->
+  ropt_list O ps rec (mk_if arms els) s k =
+  match List.find (fun cb => match eval_cond O (fst cb) s with Ok true => true | _ => false end) arms with
+  | Some (_, b) => rlist O ps rec b s k
+  | None => ropt_list O ps rec els s k
+  end.
+Proof.
+  induction arms as [|[c b] rest IH]; intros els s k H; [reflexivity|].
+  inversion H as [|? ? [v Hv] Hr]; subst. simpl in Hv.
+  cbn [mk_if ropt_list]. rewrite rlist_single, rnode_if. cbn [List.find fst]. rewrite Hv. cbn [of_res].
+  destruct v; cbn [Bool.eqb]; [reflexivity|]. apply IH; assumption.
+Qed.
+(* an evaluation error is raised by the first arm that is reached and fails *)
+Theorem if_error_propagates c t e s k cl : eval_cond O c s = Err cl ->
+  rnode O ps rec (NIf true c t e) s k = (OFail cl, s, k).
+Proof. intro H. rewrite rnode_if, H. reflexivity. Qed.
+(* unless is the negation of if *)
+Theorem unless_is_negation c t e s k v : eval_cond O c s = Ok v ->
+  rnode O ps rec (NIf false c t (Some e)) s k = rnode O ps rec (NIf true c e (Some t)) s k.
+Proof. intro H. rewrite !rnode_if, H. cbn [of_res ropt_list]. destruct v; reflexivity. Qed.
+
+(* case / when: the first arm one of whose values equals the target *)
+Theorem rnode_case target whens els s k :
+  rnode O ps rec (NCase target whens els) s k =
+  of_res (eval_expr O target s) s k (fun tv =>
+    (fix cases (ws : list (list expr * list node)) : out :=
+       match ws with
+       | [] => ropt_list O ps rec els s k
+       | (args, body) :: ws' =>
+           (fix any (l : list expr) : out :=
+              match l with
+              | [] => cases ws'
+              | a :: l' => of_res (eval_expr O a s) s k (fun av => if value_eq av tv then rlist O ps rec body s k else any l')
+              end) args
+       end) whens).
+Proof. reflexivity. Qed.
+Definition arm_matches (tv : value) (s : est) (arm : list expr * list node) : bool :=
+  existsb (fun a => match eval_expr O a s with Ok av => value_eq av tv | _ => false end) (fst arm).
+Lemma case_any tv body (rest : out) s k : forall l, Forall (fun a => exists v, eval_expr O a s = Ok v) l ->
+  (fix any (l : list expr) : out :=
+     match l with
+     | [] => rest
+     | a :: l' => of_res (eval_expr O a s) s k (fun av => if value_eq av tv then rlist O ps rec body s k else any l')
+     end) l =
+  if existsb (fun a => match eval_expr O a s with Ok av => value_eq av tv | _ => false end) l
+  then rlist O ps rec body s k else rest.
+Proof.
+  induction l as [|a l IH]; intro H; [reflexivity|]. inversion H as [|? ? [v Hv] Hl]; subst.
+  cbn [existsb]. rewrite Hv. cbn [of_res]. destruct (value_eq v tv); [reflexivity|]. cbn [orb]. apply IH; assumption.
+Qed.
+Theorem case_first_equal : forall whens target els s k tv, eval_expr O target s = Ok tv ->
+  Forall (fun arm => Forall (fun a => exists v, eval_expr O a s = Ok v) (fst arm)) whens ->
+  rnode O ps rec (NCase target whens els) s k =
+  match List.find (arm_matches tv s) whens with
+  | Some (_, b) => rlist O ps rec b s k
+  | None => ropt_list O ps rec els s k
+  end.
+Proof.
+  intros whens target els s k tv Ht H. rewrite rnode_case, Ht. cbn [of_res].
+  induction whens as [|[args body] ws IH]; [reflexivity|]. inversion H as [|? ? Ha Hw]; subst. simpl in Ha.
+  cbn [List.find]. unfold arm_matches at 1. cbn [fst].
+  rewrite case_any by assumption.
+  destruct (existsb _ args); [reflexivity|]. apply IH; assumption.
+Qed.
+End Cond.
